@@ -177,6 +177,9 @@ def f3(ctx):
         ev, res = ctx.eval(b, no_inline=NOINLINE)
         oks = [r for r in res.log if r["kind"] == "ret0" and not r["chain"] and tag(r["value"]) == "variant" and r["value"][2] == "Ok"]
         errs = [r for r in res.log if r["kind"] == "ret0" and not r["chain"] and tag(r["value"]) == "variant" and r["value"][2] == "Err" and "InsufficientSpace" in show(r["value"])]
+        # (an error return whose path condition is contradictory - a `let .. else` behind the size test - is not a way to fail)
+        import dnf as D
+        errs = [r for r in errs if D.block_dnf(ev, res, b, r["bb"]) != []]
         ok = len(oks) == 1
         if ok:
             m = oks[0]["value"][3][0]
@@ -211,8 +214,8 @@ def f4(ctx):
         def strip(t):
             # the same location loaded at two program points of two functions is the same value for this comparison
             def f(x):
-                if tag(x) == "load":            # ("load", site, target)
-                    return ("load", term_map(x[2], f) if isinstance(x[2], (tuple, Lin)) else x[2])
+                if tag(x) == "load" and len(x) >= 2:            # ("load", site, target) - or already without its site
+                    return ("load", term_map(x[-1], f) if isinstance(x[-1], (tuple, Lin)) else x[-1])
                 if tag(x) == "call" and len(x) > 3:   # ("call", callee, args, site)
                     return ("call", x[1], tuple(term_map(a, f) if isinstance(a, (tuple, Lin)) else a for a in x[2]))
                 return None
@@ -223,13 +226,20 @@ def f4(ctx):
         import dnf as D
 
         def lit(f):
+            if not isinstance(f, tuple) or len(f) < 2:
+                return f
             # `a.checked_sub(b)` is Some exactly when b <= a: that comparison is emitted next to the discriminant fact and carries it
-            if f[0] == "discr" and tag(f[1]) == "call" and isinstance(f[1][1], str) and f[1][1].endswith("checked_sub"):
+            if f[0] == "discr" and tag(f[1]) == "call" and len(f[1]) > 1 and isinstance(f[1][1], str) and f[1][1].endswith("checked_sub"):
                 return None
             # likewise Some(v).filter(|_| c) / c.then_some(v): its discriminant says c, and c is emitted next to it; the discriminant of a literal says nothing
-            if f[0] == "discr" and (tag(f[1]) == "variant" or (tag(f[1]) == "filter" and tag(f[1][1]) == "variant")):
+            if f[0] == "discr" and (tag(f[1]) == "variant" or (tag(f[1]) == "filter" and len(f[1]) > 1 and tag(f[1][1]) == "variant")):
                 return None
-            return strip(f)
+            try:
+                return strip(f)
+            except IndexError:
+                if os.environ.get("VERIF_DEBUG_F4"):
+                    sys.stderr.write("STRIPFAIL %r\n" % (f,))
+                raise
 
         def accept_dnf(b_, ev_, r_, is_accept, is_reject):
             out = []
@@ -251,7 +261,7 @@ def f4(ctx):
                     n_acc += 1
                     ls = frozenset(strip(f) for f in implied_facts([(v, ("eq", 1))]))
                     out.extend(c | ls for c in base)
-                elif tag(v) == "phi" and len(v) > 4 and v[4]:
+                elif tag(v) == "phi" and len(v) > 4 and v[4] and list(v[4]).count(None) <= 1:
                     # a boolean joined from several exits (of an inlined helper, of an `&&`): true along an exit iff what that exit brings is
                     n_acc += 1
                     for a in D.bool_dnf(ev_, r_, b_, v, True):
